@@ -500,8 +500,18 @@ def run_shard(ctx: Ctx, rec: Recorder) -> None:
                 rec.case(s, nontrivial=L > 0)
                 judge(rec, s, "exh")
     rec.exhaustive_parts.append(f"all strings of length<={depth_all} over the 20-symbol alphabet behind each of {PREFIXES}; length<={depth_http} behind 'http://'")
-    # (i-b) call histories: one host spelling under schemes that are and are not normalised, in both orders
+    # (i-b') refused strings inside call histories: a refusal leaves nothing behind
     hi = 0
+    bad = ["http://evil.example:99999/", "http://[::1", "http://a b.test/", "http://h.test:8o/", "http://[v1.x/", "//[::g]/p", "http://\ud800.test/"]
+    good = ["https://bank.example/login", "http://OK.example:8080/p?q#f", "//h.test/x"]
+    for b in bad:
+        for g in good:
+            hi += 1
+            if not ctx.mine(hi):
+                continue
+            rec.case(["history-refused", g, b])
+            judge_history(rec, [g, b, b, g, b, b, b, g])
+    # (i-b) call histories: one host spelling under schemes that are and are not normalised, in both orders
     for h in HISTORY_HOSTS:
         for rot in range(len(HISTORY_SCHEMES)):
             for tail in ("/p", "", "/P?Q#F"):
@@ -539,7 +549,18 @@ def judge_history(rec: Recorder, urls: list[str]) -> None:
     from urllib3.util.url import parse_url
 
     first: dict[str, typing.Any] = {}
+
+    def outcome(u: str) -> typing.Any:
+        try:
+            return tuple(parse_url(u))
+        except LocationParseError:
+            return "rejected"
+
     for i, u in enumerate(urls):
+        # the very first answer for this position, before anything else looks at the string: a string that is refused
+        # must be refused again when it is handed in twice in a row
+        r_first = outcome(u)
+        first.setdefault(u, r_first)
         n_before = rec.failure_count
         judge(rec, u, "history")
         if rec.failure_count != n_before and rec.failures and rec.failures[-1]["case"].get("url") == u:
